@@ -45,6 +45,7 @@ type negoScn struct {
 	Alps12       bool   `json:"alps12"`
 	AlpsSettings []int  `json:"alps_settings"`
 	ClientAlps   string `json:"client_alps"` // "has": {"h2": "CLNT"}, "lacks": {"zz": "X"}, "empty": {}, "": nil
+	AlpsFirst    bool   `json:"alps_first"`  // put the ALPS extension before ALPN in EncryptedExtensions
 	// client authentication: 0 none, 1 server requests a certificate and the client has none,
 	// 2 server requests one and the client presents it
 	ClientAuth int `json:"client_auth"`
@@ -55,6 +56,18 @@ type negoScn struct {
 	NoReneg bool `json:"no_reneg"`
 	// KSReverse: the parrot's spec as a custom spec whose key_share entries are listed in the opposite order
 	KSReverse bool `json:"ks_reverse"`
+	// FPCopy: the client is a custom spec obtained by fingerprinting a hello built from the parrot
+	FPCopy bool `json:"fp_copy"`
+	// PriorID: a connection with this other ClientHelloID is made first on the same *Config object
+	PriorID string `json:"prior_id"`
+	// InterleaveID: a connection with this other ClientHelloID is built on the same *Config right after this
+	// connection has written its first ClientHello
+	InterleaveID string `json:"interleave_id"`
+	// ExtraExts: generic extensions (type, body) inserted into the parrot's spec (custom spec), before padding / PSK
+	ExtraExts []struct {
+		ID   int   `json:"id"`
+		Data []int `json:"data"`
+	} `json:"extra_exts"`
 	// client options
 	Omit      bool  `json:"omit"`
 	RemoveSNI bool  `json:"remove_sni"`
@@ -253,7 +266,19 @@ func runNego(s negoScn, rawScn json.RawMessage, pk *hlib.PKI, certs map[string]t
 			}
 		}
 		if s.AlpsCP != 0 && ((d[0] == 8 && !s.Alps12) || (d[0] == 2 && s.Alps12 && !isHRRMsg(d))) {
-			d = appendExtension(d, s.AlpsCP, hlib.Unints(s.AlpsSettings))
+			if s.AlpsFirst && d[0] == 8 && len(d) >= 6 {
+				// application_settings listed before ALPN in EncryptedExtensions (extension order is free)
+				body := hlib.Unints(s.AlpsSettings)
+				ext := append([]byte{byte(s.AlpsCP >> 8), byte(s.AlpsCP), byte(len(body) >> 8), byte(len(body))}, body...)
+				nd := append(append(append([]byte{}, d[:6]...), ext...), d[6:]...)
+				el := int(nd[4])<<8 | int(nd[5]) + len(ext)
+				nd[4], nd[5] = byte(el>>8), byte(el)
+				n := len(nd) - 4
+				nd[1], nd[2], nd[3] = byte(n>>16), byte(n>>8), byte(n)
+				d = nd
+			} else {
+				d = appendExtension(d, s.AlpsCP, hlib.Unints(s.AlpsSettings))
+			}
 		}
 		raw := d
 		if len(raw) > 600 && (d[0] == 11 || d[0] == 25 || d[0] == 4) {
@@ -273,6 +298,13 @@ func runNego(s negoScn, rawScn json.RawMessage, pk *hlib.PKI, certs map[string]t
 		tls.VerifSetOverride(scfg, ov)
 	}
 	ccfg := &tls.Config{ServerName: s.SNI, RootCAs: pk.Pool, OmitEmptyPsk: s.Omit}
+	if s.PriorID != "" {
+		// an earlier connection of another fingerprint on the very same *Config object (callers commonly share one)
+		if pid, err := hlib.LookupID(s.PriorID); err == nil {
+			pcfg := &tls.Config{Certificates: scfg.Certificates}
+			hlib.RunHandshake(ccfg, pcfg, pid, hlib.HSOpts{Timeout: 5 * time.Second, Echo: []int{3}})
+		}
+	}
 	firstOK := false
 	if s.Resume {
 		// a prior, plainly compliant TLS 1.2 connection of the same client fills the shared session cache; the
@@ -322,7 +354,7 @@ func runNego(s negoScn, rawScn json.RawMessage, pk *hlib.PKI, certs map[string]t
 	}
 	nch := 0
 	runID := id
-	if s.NoReneg || s.KSReverse {
+	if s.NoReneg || s.KSReverse || s.FPCopy || len(s.ExtraExts) > 0 {
 		runID = tls.HelloCustom
 	}
 	r := hlib.RunHandshake(ccfg, scfg, runID, hlib.HSOpts{Timeout: 5 * time.Second, Echo: echo, EKM: ekm, OnClientWrite: func(b []byte) {
@@ -332,13 +364,61 @@ func runNego(s negoScn, rawScn json.RawMessage, pk *hlib.PKI, certs map[string]t
 			if 5+n <= len(b) {
 				nch++
 				emit(map[string]any{"ev": "CH", "k": nch, "raw": hlib.Ints(b[5 : 5+n])})
+				if nch == 1 && s.InterleaveID != "" {
+					// another connection with a different fingerprint is built on the same *Config while this one
+					// is between its first ClientHello and the server's answer
+					if oid, err := hlib.LookupID(s.InterleaveID); err == nil {
+						c2, _ := hlib.BufPipe()
+						tls.UClient(c2, ccfg, oid).BuildHandshakeState()
+					}
+				}
 			}
 		}
 	}, Prep: func(u *tls.UConn) error {
-		if s.NoReneg || s.KSReverse {
+		if s.FPCopy {
+			// a fingerprinted copy: build the parrot's hello once, fingerprint those bytes, apply the resulting spec
+			c0, _ := hlib.BufPipe()
+			u0 := tls.UClient(c0, &tls.Config{ServerName: s.SNI, OmitEmptyPsk: true}, id)
+			if err := u0.BuildHandshakeState(); err != nil {
+				return err
+			}
+			raw := u0.HandshakeState.Hello.Raw
+			rec := append([]byte{22, 3, 1, byte(len(raw) >> 8), byte(len(raw))}, raw...)
+			spec, err := (&tls.Fingerprinter{}).FingerprintClientHello(rec)
+			if err != nil {
+				return err
+			}
+			return u.ApplyPreset(spec)
+		}
+		if s.NoReneg || s.KSReverse || len(s.ExtraExts) > 0 {
 			spec, err := tls.UTLSIdToSpec(id)
 			if err != nil {
 				return err
+			}
+			if len(s.ExtraExts) > 0 {
+				pos := len(spec.Extensions)
+				for i, e := range spec.Extensions {
+					switch e.(type) {
+					case *tls.UtlsPaddingExtension, *tls.UtlsPreSharedKeyExtension, *tls.FakePreSharedKeyExtension:
+						if i < pos {
+							pos = i
+						}
+					}
+				}
+				var add []tls.TLSExtension
+				for _, x := range s.ExtraExts {
+					dup := false
+					for _, e := range spec.Extensions {
+						if _, ok := e.(*tls.GREASEEncryptedClientHelloExtension); ok && x.ID == 0xfe0d {
+							dup = true // the parrot already carries an encrypted_client_hello extension
+						}
+					}
+					if dup {
+						continue
+					}
+					add = append(add,&tls.GenericExtension{Id: uint16(x.ID), Data: hlib.Unints(x.Data)})
+				}
+				spec.Extensions = append(append(append([]tls.TLSExtension{}, spec.Extensions[:pos]...), add...), spec.Extensions[pos:]...)
 			}
 			for _, e := range spec.Extensions {
 				if ri, ok := e.(*tls.RenegotiationInfoExtension); ok && s.NoReneg {
